@@ -205,6 +205,26 @@ func lateCase(idx int, args sim.Args, r *sim.Rand, v *sim.Verdict, root string) 
 		return d > int64(150*time.Millisecond) && d < int64(scn.TTLS)*int64(time.Second)
 	}, 0, watchdog)
 	if !ok {
+		// (a watcher that sleeps far beyond the newcomers' TTL is the one way to get here that is a finding)
+		lastTargetMs := int64(-1)
+		l := snapshot()
+		for i, s := range l {
+			switch s.Kind {
+			case "queue.watcher-wait":
+				if len(s.Args) > 1 {
+					if target, _ := strconv.ParseInt(s.Args[1], 10, 64); target != 0 {
+						lastTargetMs = (target - t0.UnixNano()) / int64(time.Millisecond)
+					}
+				}
+			case "queue.registered":
+				if lastTargetMs >= 0 && lastTargetMs > s.AtMs+scn.TTLS*1000+1 {
+					rp.Log = tail(l[:i+1], 30)
+					v.Violate("C06/verdict-late/watcher-asleep-beyond-the-ttl-of-a-new-waiter",
+						fmt.Sprintf("%s joined the watch list at %d ms (TTL %d s) while the TTL watcher sleeps until %d ms: its time-out verdict cannot come before that", strings.TrimPrefix(s.Args[0], prefix), s.AtMs, scn.TTLS, lastTargetMs), rp)
+					return
+				}
+			}
+		}
 		v.Inconclude("late case: the TTL watcher never armed a sleep towards the first expiry")
 		return
 	}
